@@ -65,9 +65,25 @@ def logging_as_shipped(level="DEBUG"):
         _LOGGING["on"] = level
 
 
-def mkdtemp(tag, odd=True):
+OTHER_FS = "/dev/shm"
+
+
+def mkdtemp(tag, odd=True, other_fs=False):
     """scratch directory for the files handed to the tools.  odd: its name holds a blank
     and characters that mean something to globs, shells and format strings - to the
-    tools it is a directory name"""
+    tools it is a directory name.  other_fs: on another file system than the system's
+    temporary directory (where a tool may keep scratch files of its own), if there is one"""
     import tempfile
-    return tempfile.mkdtemp(prefix=("pv %s [k]%%s{0}~-" if odd else "pv-%s-") % tag)
+    prefix = ("pv %s [k]%%s{0}~-" if odd else "pv-%s-") % tag
+    if other_fs and on_other_fs():
+        return tempfile.mkdtemp(prefix=prefix, dir=OTHER_FS)
+    return tempfile.mkdtemp(prefix=prefix)
+
+
+def on_other_fs():
+    import tempfile
+    try:
+        return os.path.isdir(OTHER_FS) and os.access(OTHER_FS, os.W_OK) and \
+            os.stat(OTHER_FS).st_dev != os.stat(tempfile.gettempdir()).st_dev
+    except OSError:
+        return False
